@@ -300,6 +300,440 @@ static unsigned int   opt_max_clients = DEFAULT_MAX_CLIENTS;
 static unsigned int   opt_debug_level = 0;
 static unsigned int   opt_buffer_count = DEFAULT_BUFFER_COUNT;
 
+#ifdef ZVBI_VERIF
+/* ----------------------------------------------------------------------------
+** Verification hook H1 (compiled only with -DZVBI_VERIF, purely additive)
+** - a device name starting with "/verif-sim/" selects a wrapper around the
+**   library's simulated capture device (vbi_capture_sim_new) instead of a
+**   V4L/V4L2 device, so that the daemon can run without hardware
+** - the wrapper is clocked logically: it delivers one frame per byte read
+**   from the FIFO named by environment variable ZVBI_VERIF_TICK
+**   - device name suffix "/select": the FIFO is exported as capture file
+**     handle with select(2) support
+**   - device name suffix "/thread": the handle is hidden and select support
+**     denied, so that the daemon's acquisition thread blocks in read(2)
+** - like a real device the wrapper only returns lines of services which were
+**   added by update_services (admission by vbi_raw_decoder_check_services
+**   against the simulator's sampling parameters, which cover the full VBI)
+** - timestamps are derived from a frame sequence number which is unique
+**   across re-opening of the device
+** - one line per device event is appended to the file named by environment
+**   variable ZVBI_VERIF_TRACE; additionally the client table (connection,
+**   token and queue state) is appended at the end of each main loop iteration
+**   whenever it changed
+*/
+#include <stdarg.h>
+#include <sys/socket.h>
+#include <sys/un.h>
+#include "src/io-sim.h"
+#ifdef __SANITIZE_ADDRESS__
+#include <sanitizer/asan_interface.h>
+#endif
+
+#define VERIF_SIM_PREFIX        "/verif-sim/"
+#define VERIF_IS_SIM(NAME)      (strncmp((NAME), VERIF_SIM_PREFIX, sizeof(VERIF_SIM_PREFIX) - 1) == 0)
+#define VERIF_TS_BASE           900000000.0
+#define VERIF_TS_STEP           0.04
+#define VERIF_MAX_LINES         64
+
+typedef struct
+{
+        vbi_capture             cap;            /* must be first */
+        vbi_capture           * p_sim;
+        vbi_raw_decoder         dec;
+        int                     tick_fd;
+        vbi_bool                has_select;
+        unsigned int            services;
+        unsigned int            open_id;
+        unsigned int            frame_idx;
+        vbi_capture_buffer      sliced_buf;
+        vbi_sliced              sliced[VERIF_MAX_LINES];
+} VERIF_SIM_CAP;
+
+static int            verif_trace_fd = -2;
+static volatile int   verif_in_read = 0;       /* number of threads inside verif_sim_read */
+static unsigned int   verif_open_count = 0;
+static unsigned long  verif_frame_seq = 0;
+static unsigned long  verif_loop_count = 0;
+static char           verif_loop_last[4096];
+
+static vbi_bool verif_trace_open( void )
+{
+   const char * p_name;
+
+   if (verif_trace_fd == -2)
+   {
+      p_name = getenv("ZVBI_VERIF_TRACE");
+      if (p_name != NULL)
+         verif_trace_fd = open(p_name, O_WRONLY | O_CREAT | O_APPEND | O_CLOEXEC, 0666);
+      else
+         verif_trace_fd = -1;
+   }
+   return (verif_trace_fd >= 0);
+}
+
+static void verif_trace( const char * p_fmt, ... )
+{
+   va_list      argl;
+   char         buf[4096];
+   int          len;
+
+   if (verif_trace_open())
+   {
+      va_start(argl, p_fmt);
+      len = vsnprintf(buf, sizeof(buf) - 1, p_fmt, argl);
+      va_end(argl);
+      if (len > (int)sizeof(buf) - 2)
+         len = sizeof(buf) - 2;
+      if (len > 0)
+      {
+         buf[len++] = '\n';
+         /* one write per line: O_APPEND keeps lines of both threads intact */
+         if (write(verif_trace_fd, buf, len) != len)
+            len = 0;
+      }
+   }
+}
+
+static unsigned int verif_hash( const uint8_t * p_data, unsigned int len )
+{
+   unsigned int h = 2166136261u;
+
+   while (len-- > 0)
+      h = (h ^ *(p_data++)) * 16777619u;
+
+   return h;
+}
+
+/* the acquisition thread was cancelled while blocked in read(2) on the tick FIFO */
+static void verif_sim_read_cancelled( void * p_frame )
+{
+   __sync_fetch_and_sub(&verif_in_read, 1);
+
+#ifdef __SANITIZE_ADDRESS__
+   /* Cancellation abandons the stack frames between the thread function and
+   ** read(2) without running their epilogues, so AddressSanitizer's red zones
+   ** of these frames stay poisoned; libsanitizer then trips over them itself
+   ** when glibc ends the thread (CHECK failed in GetStackFrameAccessByAddr via
+   ** __asan_handle_no_return -> sigaltstack).  Clear the shadow of the
+   ** abandoned frames: from here up to and including the frames of
+   ** vbi_capture_read*() and vbi_proxyd_forward_data(). */
+   {
+      char   marker;
+      char * p_lo = &marker;
+      char * p_hi = (char *) p_frame + 384;
+
+      if (p_hi > p_lo)
+         __asan_unpoison_memory_region(p_lo, p_hi - p_lo);
+   }
+#else
+   p_frame = p_frame;
+#endif
+}
+
+static int verif_sim_read( vbi_capture * vc,
+                           vbi_capture_buffer ** pp_raw, vbi_capture_buffer ** pp_sliced,
+                           const struct timeval * p_timeout )
+{
+   VERIF_SIM_CAP      * v = (VERIF_SIM_CAP *) vc;
+   vbi_capture_buffer * p_sim_sliced = NULL;
+   vbi_sliced         * p_lines;
+   char                 line_buf[3072];
+   char                 tick;
+   double               timestamp;
+   ssize_t              rd_count;
+   int                  old_cancel;
+   int                  in_count, out_count;
+   int                  off;
+   int                  idx;
+
+   /* wait for the logical clock (blocks in "thread" mode only) */
+   verif_trace("W open=%u idx=%u", v->open_id, v->frame_idx);
+   __sync_fetch_and_add(&verif_in_read, 1);
+   pthread_cleanup_push(verif_sim_read_cancelled, __builtin_frame_address(0));
+   do {
+      rd_count = read(v->tick_fd, &tick, 1);
+   } while ((rd_count < 0) && (errno == EINTR));
+   pthread_cleanup_pop(0);
+
+   /* capturing of a frame is atomic with respect to cancellation of the acq thread */
+   pthread_setcancelstate(PTHREAD_CANCEL_DISABLE, &old_cancel);
+
+   if ( (rd_count <= 0) ||
+        (v->p_sim->read(v->p_sim, pp_raw, &p_sim_sliced, p_timeout) <= 0) )
+   {
+      __sync_fetch_and_sub(&verif_in_read, 1);
+      pthread_setcancelstate(old_cancel, NULL);
+      return (((rd_count == 0) || ((rd_count < 0) && (errno == EAGAIN))) ? 0 : -1);
+   }
+
+   timestamp = VERIF_TS_BASE + VERIF_TS_STEP * (double) verif_frame_seq;
+   p_lines   = (vbi_sliced *) p_sim_sliced->data;
+   in_count  = p_sim_sliced->size / sizeof(vbi_sliced);
+   out_count = 0;
+   off       = 0;
+   line_buf[0] = 0;
+
+   for (idx = 0; idx < in_count; idx++)
+   {
+      if (off < (int)sizeof(line_buf) - 40)
+         off += snprintf(line_buf + off, sizeof(line_buf) - off, "%s%x@%u:%08x", ((idx > 0) ? "," : ""),
+                         p_lines[idx].id, p_lines[idx].line,
+                         verif_hash(p_lines[idx].data, sizeof(p_lines[idx].data)));
+
+      /* a device only slices lines for the services which were added */
+      if ( ((p_lines[idx].id & v->services) != 0) && (out_count < VERIF_MAX_LINES) )
+         v->sliced[out_count++] = p_lines[idx];
+   }
+
+   if (pp_sliced != NULL)
+   {
+      if (*pp_sliced == NULL)
+         *pp_sliced = &v->sliced_buf;
+      else
+         memcpy((*pp_sliced)->data, v->sliced, out_count * sizeof(vbi_sliced));
+
+      (*pp_sliced)->size      = out_count * sizeof(vbi_sliced);
+      (*pp_sliced)->timestamp = timestamp;
+   }
+   if ((pp_raw != NULL) && (*pp_raw != NULL))
+      (*pp_raw)->timestamp = timestamp;
+
+   verif_trace("F open=%u idx=%u seq=%lu ts=%.17g svc=0x%x raw=%d in=%d out=%d L=%s",
+               v->open_id, v->frame_idx, verif_frame_seq, timestamp, v->services,
+               (pp_raw != NULL), in_count, out_count, line_buf);
+
+   v->frame_idx    += 1;
+   verif_frame_seq += 1;
+
+   __sync_fetch_and_sub(&verif_in_read, 1);
+   pthread_setcancelstate(old_cancel, NULL);
+
+   return 1;
+}
+
+static vbi_raw_decoder * verif_sim_parameters( vbi_capture * vc )
+{
+   VERIF_SIM_CAP * v = (VERIF_SIM_CAP *) vc;
+
+   return &v->dec;
+}
+
+static unsigned int verif_sim_update_services( vbi_capture * vc,
+                                               vbi_bool reset, vbi_bool commit,
+                                               unsigned int services, int strict,
+                                               char ** pp_errorstr )
+{
+   VERIF_SIM_CAP * v = (VERIF_SIM_CAP *) vc;
+   unsigned int    raw_services;
+   unsigned int    granted;
+
+   /* the daemon stops its acquisition thread before it reconfigures or closes the
+   ** device, but gives up waiting after 100 ms (wall clock): tell the rig */
+   if (verif_in_read != 0)
+      verif_trace("Z open=%u acquisition thread still reading in update_services", v->open_id);
+
+   if (reset)
+      v->services = 0;
+
+   /* raw VBI is always available; sliced services are subject to admission */
+   raw_services = services & VBI_SLICED_VBI_625;
+   granted = raw_services
+           | vbi_raw_decoder_check_services(&v->dec, services & ~(VBI_SLICED_VBI_625 | VBI_SLICED_VBI_525), strict);
+   granted &= services;
+
+   v->services |= granted;
+
+   if ((granted == 0) && (pp_errorstr != NULL))
+      asprintf(pp_errorstr, "Sorry, the simulated device cannot capture any of the requested data services.");
+
+   verif_trace("U open=%u reset=%d commit=%d req=0x%x strict=%d granted=0x%x now=0x%x",
+               v->open_id, reset, commit, services, strict, granted, v->services);
+
+   return granted;
+}
+
+static int verif_sim_get_scanning( vbi_capture * vc )
+{
+   VERIF_SIM_CAP * v = (VERIF_SIM_CAP *) vc;
+
+   return v->dec.scanning;
+}
+
+static void verif_sim_flush( vbi_capture * vc )
+{
+   VERIF_SIM_CAP * v = (VERIF_SIM_CAP *) vc;
+
+   verif_trace("X open=%u flush", v->open_id);
+}
+
+static int verif_sim_get_fd( vbi_capture * vc )
+{
+   VERIF_SIM_CAP * v = (VERIF_SIM_CAP *) vc;
+
+   return (v->has_select ? v->tick_fd : -1);
+}
+
+static VBI_CAPTURE_FD_FLAGS verif_sim_get_fd_flags( vbi_capture * vc )
+{
+   VERIF_SIM_CAP * v = (VERIF_SIM_CAP *) vc;
+
+   return (v->has_select ? VBI_FD_HAS_SELECT : 0);
+}
+
+static void verif_sim_delete( vbi_capture * vc )
+{
+   VERIF_SIM_CAP * v = (VERIF_SIM_CAP *) vc;
+
+   if (verif_in_read != 0)
+      verif_trace("Z open=%u acquisition thread still reading in delete", v->open_id);
+   verif_trace("C open=%u frames=%u", v->open_id, v->frame_idx);
+
+   if (v->tick_fd != -1)
+      close(v->tick_fd);
+   if (v->p_sim != NULL)
+      vbi_capture_delete(v->p_sim);
+   vbi_raw_decoder_destroy(&v->dec);
+   free(v);
+}
+
+static vbi_capture * verif_sim_new( const char * p_dev_name, char ** pp_errorstr )
+{
+   VERIF_SIM_CAP   * v;
+   vbi_raw_decoder * p_par;
+   const char      * p_tick_name;
+   const char      * p_variant;
+   unsigned int      services;
+
+   p_tick_name = getenv("ZVBI_VERIF_TICK");
+   p_variant   = strrchr(p_dev_name, '/');
+
+   v = calloc(1, sizeof(*v));
+   if ((v == NULL) || (p_tick_name == NULL) || (p_variant == NULL))
+      goto failure;
+
+   v->tick_fd    = -1;
+   v->has_select = (strcmp(p_variant, "/thread") != 0);
+   vbi_raw_decoder_init(&v->dec);
+
+   services = VBI_SLICED_TELETEXT_B | VBI_SLICED_VPS | VBI_SLICED_CAPTION_625 | VBI_SLICED_WSS_625;
+   v->p_sim = vbi_capture_sim_new(625, &services, /* interlaced */ FALSE, /* synchronous */ TRUE);
+   if (v->p_sim == NULL)
+      goto failure;
+
+   /* O_RDWR: never blocks in open and never reports end-of-file */
+   v->tick_fd = open(p_tick_name, O_RDWR | O_CLOEXEC | (v->has_select ? O_NONBLOCK : 0));
+   if (v->tick_fd == -1)
+      goto failure;
+
+   p_par = vbi_capture_parameters(v->p_sim);
+   v->dec.scanning        = p_par->scanning;
+   v->dec.sampling_format = p_par->sampling_format;
+   v->dec.sampling_rate   = p_par->sampling_rate;
+   v->dec.bytes_per_line  = p_par->bytes_per_line;
+   v->dec.offset          = p_par->offset;
+   v->dec.start[0]        = p_par->start[0];
+   v->dec.start[1]        = p_par->start[1];
+   v->dec.count[0]        = p_par->count[0];
+   v->dec.count[1]        = p_par->count[1];
+   v->dec.interlaced      = p_par->interlaced;
+   v->dec.synchronous     = p_par->synchronous;
+
+   v->cap.read            = verif_sim_read;
+   v->cap.parameters      = verif_sim_parameters;
+   v->cap.update_services = verif_sim_update_services;
+   v->cap.get_scanning    = verif_sim_get_scanning;
+   v->cap.flush           = verif_sim_flush;
+   v->cap.get_fd          = verif_sim_get_fd;
+   v->cap.get_fd_flags    = verif_sim_get_fd_flags;
+   v->cap._delete         = verif_sim_delete;
+
+   v->sliced_buf.data     = v->sliced;
+   v->open_id             = ++verif_open_count;
+
+   verif_trace("O open=%u dev=%s select=%d start=%d,%d count=%d,%d",
+               v->open_id, p_dev_name, v->has_select,
+               v->dec.start[0], v->dec.start[1], v->dec.count[0], v->dec.count[1]);
+
+   return &v->cap;
+
+failure:
+   if (pp_errorstr != NULL)
+      asprintf(pp_errorstr, "Failed to open simulated device %s (ZVBI_VERIF_TICK=%s): %s",
+               p_dev_name, ((p_tick_name != NULL) ? p_tick_name : "unset"), strerror(errno));
+   if (v != NULL)
+   {
+      if (v->p_sim != NULL)
+         vbi_capture_delete(v->p_sim);
+      vbi_raw_decoder_destroy(&v->dec);
+      free(v);
+   }
+   return NULL;
+}
+
+/* append the client table to the trace file if it changed during the last main loop iteration */
+static void verif_loop_trace( void )
+{
+   PROXY_CLNT  * req;
+   PROXY_QUEUE * p_buf;
+   struct sockaddr_un peer;
+   struct ucred  cred;
+   socklen_t     len;
+   char          buf[sizeof(verif_loop_last)];
+   char          name[64];
+   int           off;
+   int           queue_len;
+   unsigned int  idx;
+
+   verif_loop_count += 1;
+
+   if (verif_trace_open())
+   {
+      off = snprintf(buf, sizeof(buf), "dev=%d,0x%x n=%d", (proxy.dev[0].p_capture != NULL),
+                     ((proxy.dev[0].p_capture != NULL) ? proxy.dev[0].all_services : 0), proxy.clnt_count);
+
+      for (req = proxy.p_clnts; (req != NULL) && (off < (int)sizeof(buf) - 200); req = req->p_next)
+      {
+         memset(&cred, 0, sizeof(cred));
+         len = sizeof(cred);
+         if (getsockopt(req->io.sock_fd, SOL_SOCKET, SO_PEERCRED, &cred, &len) != 0)
+            cred.pid = -1;
+
+         memset(&peer, 0, sizeof(peer));
+         len = sizeof(peer);
+         name[0] = '-';
+         name[1] = 0;
+         if ( (getpeername(req->io.sock_fd, (struct sockaddr *) &peer, &len) == 0) &&
+              (len > sizeof(sa_family_t) + 1) )
+         {  /* abstract or path name of a bound peer, printable characters only */
+            len -= sizeof(sa_family_t);
+            for (idx = 0; (idx < len) && (idx < sizeof(name) - 1); idx++)
+               name[idx] = ( ((peer.sun_path[idx] > ' ') && (peer.sun_path[idx] < 127) &&
+                              (peer.sun_path[idx] != ',') && (peer.sun_path[idx] != ';')) ? peer.sun_path[idx] : '_');
+            name[idx] = 0;
+         }
+
+         pthread_mutex_lock(&proxy.dev[req->dev_idx].queue_mutex);
+         queue_len = 0;
+         for (p_buf = req->p_sliced; (p_buf != NULL) && (queue_len < 1000); p_buf = p_buf->p_next)
+            queue_len += 1;
+         pthread_mutex_unlock(&proxy.dev[req->dev_idx].queue_mutex);
+
+         off += snprintf(buf + off, sizeof(buf) - off, " c=%d,%d,%s,%d,%d,%d,%d,0x%x,%d,%d",
+                         req->io.sock_fd, (int) cred.pid, name, req->state,
+                         req->chn_state.token_state, req->chn_prio, req->chn_profile.is_valid,
+                         req->all_services, queue_len, (req->io.writeLen > 0));
+      }
+
+      if (strcmp(buf, verif_loop_last) != 0)
+      {
+         strcpy(verif_loop_last, buf);
+         verif_trace("L it=%lu %s", verif_loop_count, buf);
+      }
+   }
+}
+#endif  /* ZVBI_VERIF */
+
 /* ----------------------------------------------------------------------------
 ** Add one buffer to the tail of a queue
 ** - slicer queue is organized so that new data is appended to the tail,
@@ -958,8 +1392,16 @@ static vbi_bool vbi_proxy_start_acquisition( int dev_idx, char ** pp_errorstr )
       pp_errorstr = &p_errorstr;
 
    p_proxy_dev->vbi_api = VBI_API_V4L2;
+#ifdef ZVBI_VERIF
+   if (VERIF_IS_SIM(p_proxy_dev->p_dev_name))
+      p_proxy_dev->p_capture = verif_sim_new(p_proxy_dev->p_dev_name, pp_errorstr);
+   else
+#endif
    p_proxy_dev->p_capture = vbi_capture_v4l2_new(p_proxy_dev->p_dev_name, opt_buffer_count,
                                                  NULL, -1, pp_errorstr, opt_debug_level);
+#ifdef ZVBI_VERIF
+   if (VERIF_IS_SIM(p_proxy_dev->p_dev_name) == FALSE)
+#endif
    if (p_proxy_dev->p_capture == NULL)
    {
       p_proxy_dev->vbi_api = VBI_API_V4L1;
@@ -2863,6 +3305,9 @@ static void vbi_proxyd_main_loop( void )
             sleep(1);
          }
       }
+#ifdef ZVBI_VERIF
+      verif_loop_trace();
+#endif
    }
 }
 
@@ -3015,12 +3460,19 @@ static void vbi_proxyd_parse_argv( int argc, char * argv[] )
          {
             if (proxy.dev_count >= SRV_MAX_DEVICES)
                proxy_usage_exit(argv[0], argv[arg_idx], "too many device paths");
+#ifdef ZVBI_VERIF
+            if (VERIF_IS_SIM(argv[arg_idx + 1]) == FALSE)
+            {
+#endif
             if (stat(argv[arg_idx + 1], &stb) == -1)
                proxy_usage_exit(argv[0], argv[arg_idx +1], strerror(errno));
             if (!S_ISCHR(stb.st_mode))
                proxy_usage_exit(argv[0], argv[arg_idx +1], "not a character device");
             if (access(argv[arg_idx + 1], R_OK | W_OK) == -1)
                proxy_usage_exit(argv[0], argv[arg_idx +1], "failed to access device");
+#ifdef ZVBI_VERIF
+            }
+#endif
 
             vbi_proxyd_add_device(argv[arg_idx + 1]);
             arg_idx += 2;
